@@ -1279,6 +1279,9 @@ def b4(repo: Repo) -> RuleResult:
         rule_fn = lex_cls.methods["t_BOOL_LITERAL"].node
         consts_b = dict(lex_mod.assigns)
         consts_b.update(lex_cls.attrs_val)
+        for k_c in list(lex_cls.attrs_val):
+            consts_b.setdefault(f"Lexer.{k_c}", lex_cls.attrs_val[k_c])
+            consts_b.setdefault(f"self.{k_c}", lex_cls.attrs_val[k_c])
         flb = _PFb(funcs={}, methods={}, consts=consts_b, havoc_on=())
         prm_b = [a_.arg for a_ in rule_fn.args.args]
         paths_b = [p_ for p_ in flb.run(rule_fn, {prm_b[0]: _Vb("self"), prm_b[1]: _Vb("t")}) if p_.done == "return"]
@@ -1339,40 +1342,15 @@ def b4(repo: Repo) -> RuleResult:
             res.bad(Finding("B4", LEXER, (in_loop or passes)[0].lineno, "Lexer.t_STRING_LITERAL", src_of((in_loop or passes)[0]), "escape sequences are decoded by successive replacement passes over the whole text: a pass can pair the second half of one escape with the character after it (an escaped backslash followed by t, r, n or a quote)", witness='const S = "C:\\\\temp"  ->  C:\\<TAB>emp', tag="escapes:passes"))
         else:
             prm_e = [a_.arg for a_ in fn_e.args.args]
-            tops_e = _PFe(funcs={}, methods={}, consts=consts_e, havoc_on=()).run(fn_e, {prm_e[0]: _Ve("self"), prm_e[1]: _Ve("t")})
-            loops_e = [e for p_ in tops_e for e in p_.effects if e.kind == "loop" and e.name == "while"]
-            shape_ok = False
-            why_e = "no scanning loop found"
-            if loops_e:
-                lp_e = loops_e[0]
-                tag_e = lp_e.op
-                seen_e = {"escape": False, "reject": False, "plain": False}
-                why_e = ""
-                for sp in lp_e.sub or []:
-                    lits = {(k_[0], tuple(_she(x) if hasattr(x, "terms") else str(x) for x in k_[1:])): t_ for k_, t_ in sp.guards}
-                    bs = next((t_ for (kind, a_), t_ in lits.items() if kind == "eq" and len(a_) == 2 and a_[1] in ("'\\\\'", "\\")), None)
-                    known = next((t_ for (kind, a_), t_ in lits.items() if kind == "contains" and "escaping_chars" in a_[0]), None)
-                    if known is None:
-                        # table.get(c) is None  /  table.get(c) (truthy)
-                        got_ = next((t_ for (kind, a_), t_ in lits.items() if kind == "isnone" and "escaping_chars.get(" in a_[0]), None)
-                        if got_ is not None:
-                            known = not got_
-                    adv = (sp.env.get("i") - _Ve("i" + tag_e)).const_value() if sp.env.get("i") is not None else None
-                    if bs is True and known is True:
-                        seen_e["escape"] = sp.done is None and adv == 2
-                        if adv != 2:
-                            why_e = f"an escape advances the scan by {adv} characters, not 2"
-                    elif bs is True and known is False:
-                        seen_e["reject"] = sp.done == "raise"
-                    elif bs is False:
-                        seen_e["plain"] = sp.done is None and adv == 1
-                        if adv != 1:
-                            why_e = f"a plain character advances the scan by {adv}"
-                shape_ok = all(seen_e.values())
-                if not shape_ok and not why_e:
-                    why_e = f"cases seen: {seen_e}"
-            res.inst(part="escapes", scan=shape_ok, detail=why_e)
-            if not shape_ok:
+            for k_c in list(consts_e):
+                consts_e.setdefault(f"Lexer.{k_c}", consts_e[k_c])
+            meths_e = {k_m: v_m.node for k_m, v_m in lc_e.methods.items()}
+            tops_e = _PFe(funcs={}, methods=meths_e, consts={k_c: v_c for k_c, v_c in consts_e.items() if "escaping_chars" not in k_c}, havoc_on=(), inline_filter=lambda n_, f_: not n_.startswith("t_") and n_ != "current_filepath").run(fn_e, {prm_e[0]: _Ve("self"), prm_e[1]: _Ve("t")})
+            verdict_e, why_e, bad_e = _unescape_scan(tops_e)
+            res.inst(part="escapes", scan=verdict_e, detail=why_e)
+            for msg_e, cons_e in bad_e:
+                res.bad(Finding("B4", LEXER, fn_e.lineno, "Lexer.t_STRING_LITERAL", cons_e, msg_e, witness='const S = "a\\tb"', tag="escapes:piece"))
+            if not verdict_e and not bad_e:
                 res.unsure(f"B4: t_STRING_LITERAL: the unescape loop is not the recognised single scan ({why_e})")
     except (Inconclusive, KeyError) as e:
         res.unsure(f"B4: t_STRING_LITERAL: {e}")
@@ -1393,6 +1371,117 @@ def b4(repo: Repo) -> RuleResult:
         if not before(t, "IDENTIFIER"):
             res.bad(Finding("B4", LEXER, 0, "Lexer", f"t_{t} / t_IDENTIFIER", f"t_{t} must be defined before t_IDENTIFIER, else the word lexes as an identifier", witness="message M { uint8 a = 1 }", tag=f"order-{t}"))
     return res
+
+
+def _unescape_scan(tops: List[Any]) -> Tuple[bool, str, List[Tuple[str, str]]]:
+    """The unescape procedure as one left-to-right scan: a plain character is copied and advances the
+    scan by one; a backslash followed by a table character emits the table entry and advances by two;
+    a backslash followed by anything else raises.  Two spellings of the scan are understood: an index
+    compared with the length (`while i < len(s)`), and an iterator consumed by the loop and by
+    `next()` (`for c in it: ... next(it)`).  Returns (recognised and correct, why not, violations)."""
+    from .normal import V as _V
+    from .normal import show as _sh
+    from .pyflow import single_atom as _sa
+
+    loops = [e for p_ in tops for e in p_.effects if e.kind == "loop" and e.name in ("while", "for")]
+    if not loops:
+        return False, "no scanning loop found", []
+    lp = loops[0]
+    tag = lp.op
+    subs = list(lp.sub or [])
+    bad: List[Tuple[str, str]] = []
+
+    def is_bs(x: Any) -> bool:
+        a = _sa(x) if hasattr(x, "terms") else None
+        return a is not None and a[0] == "str" and a[1] == "\\"
+
+    # the scan position: index form or iterator form
+    idx = None
+    it_txt = None
+    if lp.name == "while":
+        cands = set()
+        for sp in subs:
+            for v_, val in sp.env.items():
+                if "." in v_ or not hasattr(val, "terms"):
+                    continue
+                d = (val - _V(v_ + tag)).const_value()
+                if d is not None and d != 0:
+                    cands.add(v_)
+        if len(cands) != 1:
+            return False, f"scan index not identified (candidates {sorted(cands)})", []
+        idx = cands.pop()
+    else:
+        src = lp.args[0] if lp.args else None
+        a = _sa(src) if src is not None and hasattr(src, "terms") else None
+        if a is None or a[0] != "call" or a[1] != "iter":
+            return False, "the for loop does not run over an explicit iterator, so an escape cannot consume its second character", []
+        it_txt = _sh(src)
+
+    seen = {"escape": False, "reject": False, "plain": False}
+    why = ""
+    for sp in subs:
+        bs = None
+        cur = None
+        known = None
+        nxt = None
+        for k_, t_ in sp.guards:
+            if k_[0] == "eq" and (is_bs(k_[1]) or is_bs(k_[2])):
+                bs = t_
+                cur = k_[2] if is_bs(k_[1]) else k_[1]
+            elif k_[0] == "contains" and "escaping_chars" in _sh(k_[1]):
+                known, nxt = t_, k_[2]
+            elif k_[0] in ("isnone", "truthy") and hasattr(k_[1], "terms"):
+                a = _sa(k_[1])
+                if a is not None and a[0] == "mcall" and a[1] == "get" and "escaping_chars" in _sh(a[2][0]) and len(a[2]) == 2:
+                    known = (not t_) if k_[0] == "isnone" else t_
+                    nxt = a[2][1]
+        if bs is None:
+            continue
+        # how far this iteration moves the scan
+        if idx is not None:
+            adv = (sp.env.get(idx) - _V(idx + tag)).const_value() if sp.env.get(idx) is not None else None
+        else:
+            adv = 1 + sum(1 for e in sp.effects if e.kind == "call" and e.name == "next" and e.args and hasattr(e.args[0], "terms") and _sh(e.args[0]) == it_txt)
+        # what this iteration emits
+        pieces: List[Any] = [e.args[0] for e in sp.effects if e.kind == "call" and e.name == "append" and len(e.args) == 1]
+        for v_, val in sp.env.items():
+            if "." in v_ or v_ == idx or not hasattr(val, "terms"):
+                continue
+            d = val - _V(v_ + tag)
+            if d.const_value() is None and _sa(d) is not None and (_V(v_ + tag) + d) == val and _sh(val) != _sh(d):
+                if _sh(_V(v_ + tag)) in _sh(val):
+                    pieces.append(d)
+        cur_txt = _sh(cur) if cur is not None else None
+        nxt_txt = _sh(nxt) if nxt is not None else None
+        if idx is not None and cur_txt is not None and not cur_txt.endswith(f"[{idx}{tag}]"):
+            return False, f"the character tested against the backslash is `{cur_txt}`, not the one at the scan index", []
+        if bs is False:
+            if sp.done is None and adv == 1:
+                seen["plain"] = True
+            elif sp.done is None:
+                why = f"a plain character advances the scan by {adv}"
+            for pc in pieces:
+                if _sh(pc) != cur_txt:
+                    bad.append((f"a plain character is copied as `{_sh(pc)}`, not as itself (`{cur_txt}`)", _sh(pc)))
+        elif known is True:
+            if idx is not None and nxt_txt is not None and not nxt_txt.endswith(f"[{idx}{tag} + 1]"):
+                return False, f"the escape character looked up is `{nxt_txt}`, not the one behind the backslash", []
+            if idx is None and nxt_txt is not None and nxt_txt != f"next({it_txt})":
+                return False, f"the escape character looked up is `{nxt_txt}`, not the next one of the iterator", []
+            if sp.done is None and adv == 2:
+                seen["escape"] = True
+            elif sp.done is None:
+                why = f"an escape advances the scan by {adv} characters, not 2"
+            for pc in pieces:
+                t_pc = _sh(pc)
+                if not ("escaping_chars" in t_pc and nxt_txt is not None and nxt_txt in t_pc):
+                    bad.append((f"an escape sequence is replaced by `{t_pc}`, not by the table entry of the character behind the backslash", t_pc))
+        elif known is False:
+            seen["reject"] = sp.done == "raise"
+    ok = all(seen.values())
+    if not ok and not why:
+        why = f"cases seen: {seen}"
+    return ok and not bad, why, bad
 
 
 # --------------------------------------------------------------------------
